@@ -245,6 +245,9 @@ func checkC11(c *Ctx) {
 	c.Rule("C11-R22", "however the bytes are split across reads: the chunk is appended to the decode buffer as received (a rewrite of 0x9b per chunk turns the continuation byte of a character cut by the read boundary into ESC [; = C02-R21)")
 	c.Expect("C11-R22", 1)
 	checkChunkBufferedAsRead(c, p, "C11-R22")
+	c.Rule("C11-R23", "text in a legacy 8-bit charset arrives with its top bits: the Unix ttys enter raw mode through term.MakeRaw, or clear ISTRIP among the input flags when they set the mode by hand")
+	c.Expect("C11-R23", 2)
+	checkRawModeIsEightBitClean(c, p, "C11-R23")
 	pr := p.Fn("tcell:(*tScreen).parseRune")
 	if pr == nil {
 		c.Undecided("C11-R1", "parseRune", "-", "not found")
